@@ -1,6 +1,7 @@
 package props
 
 import (
+	"regexp"
 	"fmt"
 	"os"
 	"go/token"
@@ -641,4 +642,373 @@ func sortsInternal(p *load.Prog, r *oblig.Run, rule string) {
 		}
 	}
 	_ = n
+}
+
+// c12DateDistance (R12.j): date similarity depends on the two dates only through their distance in years, and
+// through an even function of it. In DateRange.Similarity every occurrence of the two operands - in what is
+// returned and in every branch condition - is the difference Years(a)-Years(b) (either order) under a square or an
+// absolute value; nothing else about the operands (their order in time, their start dates, validity) steers the
+// score. Value descriptors are spelling-independent (resolved callees over parameters); locals do not matter.
+func c12DateDistance(p *load.Prog, r *oblig.Run) {
+	r.Rule("R12.j", "DateRange.Similarity uses its operands only through an even function of the distance in years", 1)
+	fn := p.Method(load.PkgRoot, "DateRange", "Similarity")
+	o := r.Add("R12.j", "operands of DateRange.Similarity", "-", "every use of the two dates")
+	if fn == nil || len(fn.Blocks) == 0 || len(fn.Params) < 2 {
+		o.Unknown("DateRange.Similarity not found")
+		return
+	}
+	o.Pos = p.Pos(fn.Pos())
+	env := &descEnv{p: p, params: map[*ssa.Parameter]string{}, noInline: true}
+	var exprs []string
+	for _, b := range fn.Blocks {
+		switch t := b.Instrs[len(b.Instrs)-1].(type) {
+		case *ssa.Return:
+			for _, v := range t.Results {
+				if ph, ok := v.(*ssa.Phi); ok {
+					for _, e := range ph.Edges {
+						exprs = append(exprs, env.desc(e, 0))
+					}
+					continue
+				}
+				exprs = append(exprs, env.desc(v, 0))
+			}
+		case *ssa.If:
+			for _, f := range env.condFacts(t.Cond, true, 0) {
+				exprs = append(exprs, f.atom)
+			}
+			if len(env.condFacts(t.Cond, true, 0)) == 0 {
+				exprs = append(exprs, env.desc(t.Cond, 0))
+			}
+		}
+	}
+	d1 := "(DateRange.Years(p0)-DateRange.Years(p1))"
+	d2 := "(DateRange.Years(p1)-DateRange.Years(p0))"
+	even := regexp.MustCompile(`^(Pow\(\(?D(/p2\))?,2\)|Abs\(D\)|\(D\*D\))`)
+	bad, unknown := "", ""
+	uses := 0
+	for _, e := range exprs {
+		x := strings.ReplaceAll(strings.ReplaceAll(e, d1, "D"), d2, "D")
+		if strings.Contains(x, "?") {
+			unknown = e
+			continue
+		}
+		if regexp.MustCompile(`\bp[01]\b`).MatchString(x) {
+			bad = "the expression " + e + " uses an operand otherwise than through the difference of the two Years() values"
+			continue
+		}
+		// every D under an even function
+		for i := 0; i < len(x); i++ {
+			if x[i] != 'D' || (i+1 < len(x) && (x[i+1] >= 'a' && x[i+1] <= 'z')) || (i > 0 && ((x[i-1] >= 'a' && x[i-1] <= 'z') || (x[i-1] >= 'A' && x[i-1] <= 'Z') || x[i-1] == '.')) {
+				continue
+			}
+			uses++
+			okEven := false
+			for _, back := range []int{4, 5, 1} { // "Pow(" / "Pow((" / "Abs(" -> 4, "(" for (D*D)
+				if i-back >= 0 && even.MatchString(x[i-back:]) {
+					okEven = true
+				}
+			}
+			if !okEven {
+				bad = "the distance in years is used signed in " + e + " (not under a square or an absolute value): the score then depends on the order of the operands"
+			}
+		}
+	}
+	switch {
+	case bad == "" && unknown != "":
+		o.Unknown("an expression of DateRange.Similarity cannot be described: " + unknown)
+	case bad != "":
+		o.Fail(bad + ": date similarity is no longer a function of the distance alone (a.Similarity(b) != b.Similarity(a), or dates the same distance apart score differently)")
+	case uses == 0:
+		o.Unknown("DateRange.Similarity does not use the difference of the two Years() values")
+	default:
+		o.OK(fmt.Sprintf("%d use(s) of the operands, each the year difference under a square/absolute value", uses))
+	}
+}
+
+// c06DecisionInputs (R06.i): the relation of two ranges is defined on their day intervals. DateRange.Compare and
+// compareDatesForLetter decide it from the order of the (day-truncated) boundary times alone. A branch condition,
+// or an end-of-range flag handed to the classification, that asks one of the library's *constraint- or
+// granularity-aware* predicates about the operands (Date.Is ignores which end of the period is meant;
+// Date/DateRange.Equals and IsExact look at Abt./Bef./Aft.; Years/IsBefore/IsAfter use the midpoint of a period;
+// the constraint field itself) makes the relation depend on how the dates are written, not on the days they
+// cover: two ranges over the same days then compare differently, self-comparison is no longer Equal, swapping the
+// operands no longer gives the converse.
+func c06DecisionInputs(p *load.Prog, r *oblig.Run) {
+	r.Rule("R06.i", "Compare and compareDatesForLetter take no decision on constraint- or granularity-aware predicates of the operands", 2)
+	forbidden := []string{"Date.Is(", "Date.Equals(", "DateRange.Equals(", "Date.IsExact(", "DateRange.IsExact(", "Date.Years(", "DateRange.Years(",
+		"Date.IsBefore(", "Date.IsAfter(", "DateRange.IsBefore(", "DateRange.IsAfter(", "DateNode.", ".Constraint", "Date.IsPhrase(", "DateRange.IsPhrase("}
+	hit := func(e string) string {
+		for _, f := range forbidden {
+			if strings.Contains(e, f) {
+				return strings.TrimSuffix(f, "(")
+			}
+		}
+		return ""
+	}
+	cmpLetter := p.Func(load.PkgRoot, "compareDatesForLetter")
+	for _, fn := range []*ssa.Function{p.Method(load.PkgRoot, "DateRange", "Compare"), cmpLetter} {
+		if fn == nil || len(fn.Blocks) == 0 {
+			r.Add("R06.i", "anchor", "-", "anchor").Unknown("DateRange.Compare / compareDatesForLetter not found")
+			continue
+		}
+		o := r.Add("R06.i", "decision inputs of "+load.FuncName(fn), p.Pos(fn.Pos()), "branch conditions and end-of-range flags")
+		env := &descEnv{p: p, params: map[*ssa.Parameter]string{}, noInline: true}
+		bad := ""
+		n := 0
+		for _, b := range fn.Blocks {
+			for _, ins := range b.Instrs {
+				switch x := ins.(type) {
+				case *ssa.If:
+					n++
+					e := env.desc(x.Cond, 0)
+					for _, f := range env.condFacts(x.Cond, true, 0) {
+						e += " " + f.atom
+					}
+					if h := hit(e); h != "" {
+						bad = "the branch at " + p.Pos(x.Cond.Pos()) + " asks " + h + " about the operands"
+					}
+				case *ssa.Call:
+					if cmpLetter != nil && x.Call.StaticCallee() == cmpLetter && len(x.Call.Args) == 4 {
+						n++
+						if _, isK := x.Call.Args[3].(*ssa.Const); !isK {
+							if h := hit(env.desc(x.Call.Args[3], 0)); h != "" {
+								bad = "the end-of-range flag handed to the classification at " + p.Pos(x.Pos()) + " is " + h + " of an operand"
+							}
+						}
+					}
+				}
+			}
+		}
+		if bad != "" {
+			o.Fail(bad + ": the predicate depends on how a date is written (constraint, precision, midpoint), not on the days it covers - the relation of two ranges is no longer a function of their day intervals")
+		} else {
+			o.OK(fmt.Sprintf("%d decision point(s); none asks a constraint- or granularity-aware predicate", n))
+		}
+	}
+}
+
+// ---- R12.k: the name/date mix is a convex combination ----
+
+type poly map[string]float64
+
+func polyConst(c float64) poly { return poly{"": c} }
+func polySym(s string) poly    { return poly{s: 1} }
+func (a poly) add(b poly, sign float64) poly {
+	out := poly{}
+	for k, v := range a {
+		out[k] += v
+	}
+	for k, v := range b {
+		out[k] += sign * v
+	}
+	return out
+}
+func (a poly) mul(b poly) poly {
+	out := poly{}
+	for k1, v1 := range a {
+		for k2, v2 := range b {
+			var syms []string
+			if k1 != "" {
+				syms = append(syms, strings.Split(k1, "*")...)
+			}
+			if k2 != "" {
+				syms = append(syms, strings.Split(k2, "*")...)
+			}
+			sort.Strings(syms)
+			out[strings.Join(syms, "*")] += v1 * v2
+		}
+	}
+	return out
+}
+func (a poly) isConst(c float64) bool {
+	for k, v := range a {
+		if k == "" {
+			if v-c > 1e-9 || c-v > 1e-9 {
+				return false
+			}
+			continue
+		}
+		if v > 1e-9 || v < -1e-9 {
+			return false
+		}
+	}
+	if _, ok := a[""]; !ok && (c > 1e-9 || c < -1e-9) {
+		return false
+	}
+	return true
+}
+
+// c12Convex (R12.k): the score of two individuals is a weighted mean of its components - with every component
+// similarity set to 1 the returned expression is identically 1 (whatever the ratio option is), with every component
+// set to 0 it is 0. Otherwise identical individuals do not score 1 or the score leaves [0,1] for some ratio. The
+// returned expression is read as a polynomial over the option fields; components are the values that come from
+// *Similarity calls (through the running maximum of the name matrix). Also: the default weights of the
+// surrounding similarity sum to 1.
+func c12Convex(p *load.Prog, r *oblig.Run) {
+	r.Rule("R12.k", "the name/date mix of IndividualNode.Similarity is a convex combination for every ratio (components all 1 -> 1, all 0 -> 0); the default surrounding weights sum to 1", 2)
+	fn := p.Method(load.PkgRoot, "IndividualNode", "Similarity")
+	o := r.Add("R12.k", "mix of name and date similarity in IndividualNode.Similarity", "-", "weights of the final calculation")
+	if fn == nil || len(fn.Blocks) == 0 {
+		o.Unknown("IndividualNode.Similarity not found")
+	} else {
+		o.Pos = p.Pos(fn.Pos())
+		env := &descEnv{p: p, params: map[*ssa.Parameter]string{}, noInline: true}
+		isComponent := func(v ssa.Value) bool {
+			seen := map[ssa.Value]bool{}
+			var rec func(v ssa.Value) bool
+			rec = func(v ssa.Value) bool {
+				if seen[v] {
+					return false
+				}
+				seen[v] = true
+				switch x := v.(type) {
+				case *ssa.Call:
+					if cal := x.Call.StaticCallee(); cal != nil && strings.Contains(cal.Name(), "Similarity") {
+						return true
+					}
+				case *ssa.Phi:
+					for _, e := range x.Edges {
+						if rec(e) {
+							return true
+						}
+					}
+				}
+				return false
+			}
+			return rec(v)
+		}
+		var undec string
+		var eval func(v ssa.Value, comp float64, d int) poly
+		eval = func(v ssa.Value, comp float64, d int) poly {
+			if d > 30 {
+				undec = "expression too deep"
+				return polyConst(0)
+			}
+			if f, ok := floatConst(v); ok {
+				return polyConst(f)
+			}
+			if isComponent(v) {
+				return polyConst(comp)
+			}
+			switch x := v.(type) {
+			case *ssa.BinOp:
+				a, b := eval(x.X, comp, d+1), eval(x.Y, comp, d+1)
+				switch x.Op {
+				case token.ADD:
+					return a.add(b, 1)
+				case token.SUB:
+					return a.add(b, -1)
+				case token.MUL:
+					return a.mul(b)
+				case token.QUO:
+					if len(b) == 1 {
+						if c, ok := b[""]; ok && c != 0 {
+							return a.mul(polyConst(1 / c))
+						}
+					}
+					undec = "division by a non-constant"
+					return polyConst(0)
+				}
+			case *ssa.Convert:
+				return eval(x.X, comp, d+1)
+			case *ssa.ChangeType:
+				return eval(x.X, comp, d+1)
+			}
+			s := env.desc(v, 0)
+			if strings.Contains(s, "?") {
+				undec = "a value that cannot be described (" + v.String() + ")"
+			}
+			return polySym(s)
+		}
+		bad := ""
+		n := 0
+		for _, b := range fn.Blocks {
+			ret, ok := b.Instrs[len(b.Instrs)-1].(*ssa.Return)
+			if !ok || len(ret.Results) != 1 {
+				continue
+			}
+			if _, isK := floatConst(ret.Results[0]); isK {
+				continue // the neutral answers (R12.a)
+			}
+			n++
+			one, zero := eval(ret.Results[0], 1, 0), eval(ret.Results[0], 0, 0)
+			if !one.isConst(1) {
+				bad = fmt.Sprintf("with every component similarity equal to 1 the mix is %v, not 1", polyString(one))
+			} else if !zero.isConst(0) {
+				bad = fmt.Sprintf("with every component similarity equal to 0 the mix is %v, not 0", polyString(zero))
+			}
+		}
+		switch {
+		case undec != "" && bad == "":
+			o.Unknown(undec)
+		case bad != "":
+			o.Fail(bad + ": the weights of the name and the two dates do not sum to 1 for every NameToDateRatio - identical individuals do not score 1, or the score exceeds 1 (individuals, lists, families and the weighted similarity built on it)")
+		case n == 0:
+			o.Unknown("no computed return found")
+		default:
+			o.OK("components all 1 -> 1 and all 0 -> 0 for every value of the options")
+		}
+	}
+	// default weights
+	o2 := r.Add("R12.k", "default weights of the surrounding similarity", "-", "IndividualWeight + ParentsWeight + SpousesWeight + ChildrenWeight")
+	mk := p.Func(load.PkgRoot, "NewSimilarityOptions")
+	if mk == nil {
+		o2.Unknown("NewSimilarityOptions not found")
+		return
+	}
+	o2.Pos = p.Pos(mk.Pos())
+	sum, nw := 0.0, 0
+	for _, b := range mk.Blocks {
+		for _, ins := range b.Instrs {
+			st, ok := ins.(*ssa.Store)
+			if !ok {
+				continue
+			}
+			fa, ok := st.Addr.(*ssa.FieldAddr)
+			if !ok {
+				continue
+			}
+			switch su.FieldName(fa) {
+			case "IndividualWeight", "ParentsWeight", "SpousesWeight", "ChildrenWeight":
+				if f, isK := floatConst(st.Val); isK {
+					sum += f
+					nw++
+				} else {
+					nw = -100
+				}
+			}
+		}
+	}
+	switch {
+	case nw < 0:
+		o2.Unknown("a default weight is not a constant")
+	case nw != 4:
+		o2.Fail(fmt.Sprintf("NewSimilarityOptions sets %d of the four weights: the weighted similarity of identical surroundings is not 1", nw))
+	case sum-1 > 1e-9 || 1-sum > 1e-9:
+		o2.Fail(fmt.Sprintf("the default weights sum to %g, not 1: the weighted similarity of two identical individuals with identical surroundings is not 1 (or exceeds 1)", sum))
+	default:
+		o2.OK("the four default weights sum to 1")
+	}
+}
+
+func polyString(a poly) string {
+	var ks []string
+	for k := range a {
+		ks = append(ks, k)
+	}
+	sort.Strings(ks)
+	var parts []string
+	for _, k := range ks {
+		if v := a[k]; v > 1e-9 || v < -1e-9 {
+			if k == "" {
+				parts = append(parts, fmt.Sprintf("%g", v))
+			} else {
+				parts = append(parts, fmt.Sprintf("%g*%s", v, k))
+			}
+		}
+	}
+	if len(parts) == 0 {
+		return "0"
+	}
+	return strings.Join(parts, " + ")
 }
